@@ -101,6 +101,32 @@ func craft(k int) []byte {
 	return h
 }
 
+// genHCV: end-to-end `Hashcash.Verify` on random unexpired stamps (no solving): the digest of the stamp
+// string decides; difficulties at and around multiples of 8 are where the byte count of the bit test matters.
+func genHCV(n int) {
+	exp := time.Now().Add(24 * time.Hour).Truncate(time.Second)
+	for i := 0; i < n; i++ {
+		d := []int{1, 7, 8, 8, 8, 9, 15, 16, 16, 17, 24}[rng.Intn(11)]
+		h := &hashcash.Hashcash{Tag: "H", Difficulty: d, ExpiresAt: exp, Subject: "s", Alg: "SHA-256",
+			Nonce: hlib.Hex(rng.Bytes(6)), Solution: hlib.Hex(rng.Bytes(6))}
+		digest := sha256.Sum256([]byte(h.String()))
+		res := "reject"
+		if func() (ok bool) {
+			defer func() {
+				if recover() != nil {
+					ok = false
+				}
+			}()
+			return h.Verify("s") == nil
+		}() {
+			res = "accept"
+		}
+		r.Emit(fmt.Sprintf("hcv %d %s", d, hlib.Hex(digest[:])), res)
+		r.Case(fmt.Sprintf("hcv%d/%x", d, digest[:4]))
+		r.Count(fmt.Sprintf("hcv:d=%d:%s", d, res))
+	}
+}
+
 func genVB() {
 	maxBits, span, reps := 72, 2, 2
 	if r.Thorough() {
@@ -583,6 +609,11 @@ func main() {
 		nvs, ntime, nparse, nsolve, maxD = 2500, 6000, 60000, 1500, 16
 	}
 	genVB()
+	nhcv := 20000
+	if r.Thorough() {
+		nhcv = 600000
+	}
+	genHCV(nhcv)
 	genParse(nparse)
 	genSolve(nsolve, maxD)
 	genVS(nvs, maxD)
